@@ -324,6 +324,21 @@ def rule_call_flag(model):
         if isinstance(n, ast.For):
             loopvars |= {x.id for x in ast.walk(n.target)
                          if isinstance(x, ast.Name)}
+    # ... or be what a lookup helper of the class returns:
+    #   value = self._lookup(key)
+    helpers_ = {h.name for h in model.closure(g)
+                if h.cls is g.cls and h is not g and any(
+                    isinstance(x, ast.Return) and isinstance(
+                        x.value, ast.Subscript)
+                    for x in own_nodes(h.node))}
+    for n in own_nodes(g.node):
+        if isinstance(n, ast.Assign) and len(n.targets) == 1 and \
+                isinstance(n.targets[0], ast.Name) and isinstance(
+                    n.value, ast.Call) and isinstance(
+                    n.value.func, ast.Attribute) and \
+                n.value.func.attr in helpers_ and \
+                norm(n.value.func.value) == 'self':
+            loopvars.add(n.targets[0].id)
     # the looked-up value may live in its own variable:
     #   value = source[key]
     for _ in range(2):
@@ -356,12 +371,20 @@ def rule_call_flag(model):
     # the per-source try guards only the subscript lookup
     for name in ('getitem', '__contains__'):
         f2 = model.func('_DocumentTemplate', 'TemplateDict.' + name)
-        for t in [n for n in own_nodes(f2.node) if isinstance(n, ast.Try)
-                  and n.handlers]:
-            only_lookup = len(t.body) == 1 and any(
-                isinstance(x, ast.Subscript) for x in ast.walk(t.body[0])) \
-                and not any(isinstance(x, ast.Call)
-                            for x in ast.walk(t.body[0]))
+        hnames = {h.name for h in model.closure(f2)
+                  if h.cls is f2.cls and h is not f2}
+        for f3, t in [(h, n) for h in model.closure(f2) if h.cls is f2.cls
+                      for n in own_nodes(h.node)
+                      if isinstance(n, ast.Try) and n.handlers]:
+            calls_ = [x for x in ast.walk(t.body[0])
+                      if isinstance(x, ast.Call)] if t.body else []
+            helper_only = len(calls_) == 1 and isinstance(
+                calls_[0].func, ast.Attribute) and \
+                calls_[0].func.attr in hnames and \
+                norm(calls_[0].func.value) == 'self'
+            only_lookup = len(t.body) == 1 and ((any(
+                isinstance(x, ast.Subscript) for x in ast.walk(t.body[0]))
+                and not calls_) or helper_only)
             r.instance(f2.where, 'try: ' + norm(t.body[0]),
                        'lookup only' if only_lookup else 'WIDE')
             if not only_lookup:
@@ -483,7 +506,9 @@ def rule_direction(model):
         f = T.methods.get(name)
         if f is None:
             raise AnalysisError(f'TemplateDict.{name} not found')
-        loops = [n for n in own_nodes(f.node) if isinstance(n, ast.For)]
+        # the search loop may live in a helper of the class (_lookup)
+        loops = [n for g in model.closure(f) for n in own_nodes(g.node)
+                 if isinstance(n, ast.For)]
         ok = any(isinstance(lp.iter, ast.Call) and
                  isinstance(lp.iter.func, ast.Name) and
                  lp.iter.func.id == 'reversed' and
